@@ -316,7 +316,8 @@ def prior_part(run, name, spec, path, comps, stages, regroups):
     # third-party input catalogues: files without uuid / island / source / err_* columns (csv, vot), or with masked uuid cells
     # (fits; a VOTable cannot mask a string cell: it would hold the same empty uuid in every row, i.e. duplicate input uuids)
     if cat and name in EXT_IMAGES:
-        for how, ext, stage, regroup in (('nouuid', 'csv', 1, True), ('masked', 'fits', 2, False), ('nouuid', 'vot', 3, True)):
+        for how, ext, stage, regroup in (('nouuid', 'csv', 1, True), ('masked', 'fits', 2, False), ('nouuid', 'vot', 3, True),
+                                           ('zeroerr', 'csv', 1, False), ('zeroerr', 'fits', 2, True)):
             job = {'mode': 'prior_ext', 'spec': spec, 'stage': stage, 'regroup': regroup, 'outside': True, 'how': how, 'ext': ext}
             try:
                 fname = cc.write_external_catalogue(cat, os.path.join(ctx.work, f'ext_{name}_{how}.{ext}'), how)
